@@ -162,6 +162,19 @@ CHECKS = {
                 "Term collection is exercised on its documented fragment only.",
         "technique": SOLVER_TECH + "; NRA; z3 as the function-equality oracle for the like-terms clause",
     },
+    "C12": {
+        "level": "model_checking",
+        "text": "Bounded symbolic model checking: tag_common_subexpressions and CSETagMapper are run on every list built from a "
+                "16-element pool of repeated, commuted (a+b / b+a), multiplicity-varied and nested subterms and pre-existing "
+                "wrappers (single, pairs, sampled triples); tagged and original expressions are evaluated on z3 proxies and z3 "
+                "proves per path that they agree for every environment. Sharing clauses are path assertions on instrumented "
+                "evaluators, explored on every path of the symbolic environment (including where a shared child is zero): "
+                "each repeated operation performed once by one evaluator, no wrapper around a wrapper, the child of a wrapper "
+                "computed once over fresh and reused evaluator instances (histories <= 3), and the wrapping helpers.",
+        "design_ref": "DESIGN.md §4 C12",
+        "note": "Trusted: the evaluator (C02), the harness's normalised key (sums/products as multisets), proxies, z3.",
+        "technique": SOLVER_TECH + "; operation / uninterpreted-call counts as path assertions",
+    },
 }
 
 _PENDING = "check not built yet in this session (the design in DESIGN.md applies; will be claimed once its harness exists)"
